@@ -159,6 +159,9 @@ func (neverReady) IsReady() bool             { return false }
 
 // rrWorld is one balancer (optionally under a rebalancer that never adjusts)
 type rrWorld struct {
+	logLeft         int
+	logPanicTask    *simrt.Task
+	faultyLogger    bool
 	r               *simkit.Run
 	sim             *simrt.Sim
 	rr              *roundrobin.RoundRobin
@@ -233,7 +236,14 @@ func newRRWorld(r *simkit.Run, viaRB, sticky, fine bool) *rrWorld {
 	var opts []roundrobin.LBOption
 	slow := rapid.IntRange(0, 2).Draw(r.T, "slow-logger") == 0
 	if slow {
-		opts = append(opts, roundrobin.Logger(simkit.SlowLogger{}), roundrobin.Verbose(rapid.Bool().Draw(r.T, "verbose")))
+		// the sink of this logger can be made to break once (w.logLeft > 0: that log call panics); the call in whose
+		// course it broke is lost to its caller and exempt from the panic check, nothing else is
+		w.logLeft = -1
+		opts = append(opts, roundrobin.Logger(simkit.FaultyLogger{Left: &w.logLeft, OnPanic: func() {
+			w.logPanicTask = w.sim.Current()
+			w.r.Fault("logger-panic")
+		}}), roundrobin.Verbose(rapid.Bool().Draw(r.T, "verbose")))
+		w.faultyLogger = true
 	}
 	// by draw the balancers are built with the caller's own error handler: the default mapping plus a mark that
 	// proves the configured handler (once, and not the built-in one) answered a request that could not be routed
@@ -455,7 +465,7 @@ func (w *rrWorld) check() {
 		w.r.Fail("deadlock", "no task can run but %d wait for a lock", len(w.sim.Blocked()))
 	}
 	for _, t := range w.sim.Tasks() {
-		if t.Panic != nil {
+		if t.Panic != nil && t != w.logPanicTask {
 			w.r.Fail("panic", "task %s panicked: %v\n%s", t.Name, t.Panic, t.PanicSite)
 		}
 	}
